@@ -58,8 +58,10 @@ theorem code_db3_concat (s t : ℝ) (p q : Quat ℝ) (u w : V3 ℝ) (hp : p.magn
     show t_m4_concat (envL ((Decomposed.toM4 basis3Ops (mk3 s p u)).toList ++ (Decomposed.toM4 basis3Ops (mk3 t q w)).toList)) = _
     rw [Trace.C08.t_m4_concat, hm]
 
-/-- **`one()`**: the identity transform (scale 1, the `Basis3` of the identity quaternion, zero displacement) is `one()`; as
-computed it leaves every point and vector unchanged, and composing with it on either side returns the other transform -/
+/-- **`one()`**: the identity transform (scale 1, the `Basis3` of the identity quaternion, zero displacement) is the model's
+`Decomposed.one`; fed to the traced `transform_point` / `transform_vector` / `concat` kernels it leaves every point and vector
+unchanged, and composing with it on either side returns the other transform.  The code's `one()` itself does not occur in this
+statement: its kernel is `t_db3_one` (`Cgm/Trace/C08Idx.lean`, kernel = flattened `Decomposed.one`), not composed here -/
 theorem code_db3_one (p : P3 ℝ) (v : V3 ℝ) (t : ℝ) (q : Quat ℝ) (w : V3 ℝ) :
     mk3 1 Quat.one V3.zero = (Decomposed.one basis3Ops V3.zero : DB3 ℝ) ∧
     t_db3_transform_point (envL (in3 1 Quat.one V3.zero ++ p.toList)) = .okS p.toList ∧
@@ -280,8 +282,9 @@ theorem code_m3_concat2 (a b : M3 ℝ) (hb : Cg.C08.M3.Affine2 b) (p : P2 ℝ) (
   · rw [Trace.C08.t_m3_transform_point2, op]
   · rw [Trace.C08.t_m3_transform_vector2, ov]
 
-/-- **`Matrix3::inverse_transform` (2-D impl and 3-D impl)** on the path `det ≠ 0`: both return the same matrix `i`, with
-`a i = i a = 1`; for an affine `a`, `i` is affine and the traced point / vector kernels of `i` on the traced images return the
+/-- **`Matrix3::inverse_transform` (2-D impl and 3-D impl)** on the path `det ≠ 0`, for a 2-D affine `a` (the whole theorem,
+including the part about the 3-D impl's kernel, is under the hypothesis `Affine2 a`): both return the same matrix `i`, with
+`a i = i a = 1`; `i` is affine and the traced point / vector kernels of `i` on the traced images return the
 originals -/
 theorem code_m3_inverse2 (a : M3 ℝ) (hd : a.det ≠ 0) (ha : Cg.C08.M3.Affine2 a) :
     ∃ i : M3 ℝ, t_m3_inverse_transform2_some (envL a.toList) = .okG i.toList [.eq a.det 0 false] ∧
